@@ -95,7 +95,8 @@ func init() {
 		LevelText: "seeded search: sim-owned generators (real node identities, both signature schemes) assemble real block.Block values from really signed transactions with outputs, " +
 			"optionally carrying a magic block built from real DKG material, hash and sign them with the shipped code; a simulated byzantine link applies one tamper per delivery " +
 			"(every JSON-visible field of Block and of its MagicBlock found by reflection, every field of a contained transaction, add/drop/reorder/duplicate/replace of transactions, attach/detach of the magic block); " +
-			"the receiver runs the shipped JSON decode, Block.ComputeProperties, Block.Validate and miner.ValidateTransactions. A clean batch is evidence, not proof",
+			"the receiver runs the shipped JSON decode, Block.ComputeProperties, Block.Validate and miner.ValidateTransactions; " +
+			"plus the same tampers (weighted towards same-count replacement / reordering of transactions and transaction fields) applied in place to a block object that was already hashed (ComputeHash / Validate / HashBlock / full receive), the same object hashed and validated again: hash and verdict must equal those of a freshly decoded block with the same contents. A clean batch is evidence, not proof",
 		LevelNote: "input-class property hosted in the simulation: schedules contribute nothing. The receiver is the hash/signature/duplicate/transaction part of miner.VerifyBlock; " +
 			"the later stages of VerifyBlock (previous block lookup, cost, ComputeState re-execution, VerifyBlockMagicBlock byte-compare against the miner's own DKG result) need a full node with ledger state and are not run here, " +
 			"so fields that only those stages protect (ClientStateHash, transaction Status, magic-block content) show up as acceptance at the hash level - which is what the statement is about",
@@ -169,6 +170,37 @@ func genC29(seed uint64, tier string) *sim.Plan {
 		}
 	}
 	r.Shuffle(len(steps), func(i, j int) { steps[i], steps[j] = steps[j], steps[i] })
+	// tampers applied to a block OBJECT that was already hashed (HashBlock / ComputeHash / Validate / full receive),
+	// the same object hashed and validated again afterwards.  Drawn after the shuffle: the steps above keep their arguments.
+	var tfs []string
+	for _, f := range txnWireFields() {
+		tfs = append(tfs, "Txn."+f.Path)
+	}
+	var bfs []string
+	for _, f := range blockWireFields() {
+		bfs = append(bfs, f.Path)
+	}
+	for i, n := 0, r.Range(5, 10); i < n; i++ {
+		var f string
+		switch r.Pick([]int{5, 3, 3, 1}) {
+		case 0:
+			f = "Txns." + []string{"replace", "reorder", "replace", "reorder", "add", "drop", "duplicate"}[r.Intn(7)]
+		case 1:
+			f = tfs[r.Intn(len(tfs))]
+		case 2:
+			f = bfs[r.Intn(len(bfs))]
+		default:
+			f = "MagicBlock"
+		}
+		mb := r.Intn(4) / 3
+		if strings.HasPrefix(f, "MagicBlock.") {
+			mb = 1
+		}
+		st := mk("rehash", f, mb)
+		st.I = append(st.I, int64(r.Intn(4))) // 6 how the object was hashed before
+		at := r.Intn(len(steps) + 1)
+		steps = append(steps[:at], append([]sim.Step{st}, steps[at:]...)...)
+	}
 	p.Steps = steps
 	return p
 }
@@ -406,6 +438,9 @@ func execC29(env *sim.Env, p *sim.Plan) *sim.Result {
 		hashMoved := false
 		switch st.Op {
 		case "honest":
+		case "rehash":
+			c29Rehash(tr, w, rc, st, wire, orig, bknown, tknown, viol)
+			continue
 		case "tamper", "forge":
 			x := &block.Block{}
 			if err := json.Unmarshal(wire, x); err != nil {
@@ -469,6 +504,88 @@ func execC29(env *sim.Env, p *sim.Plan) *sim.Result {
 		}
 	}
 	return finish(tr, p.Seed)
+}
+
+// c29Rehash: the hash is a function of the contents, not of the object's past.  A block object is decoded and
+// hashed the way a node does (I[6]), then changed in place (same tampers as on the link, incl. same-count
+// replacement / reordering of transactions), then hashed and validated again.  Reference: a freshly decoded
+// block with exactly the contents the object has now.
+func c29Rehash(tr *sim.Trace, w *c29World, rc *receiver, st sim.Step, wire []byte, orig *block.Block, bknown map[string]wireField, tknown map[string]bool, viol func(oracle, sig, detail string)) {
+	ctx := context.Background()
+	field := st.Str(0, "")
+	group := "Block"
+	if i := strings.IndexByte(field, '.'); i > 0 {
+		group = field[:i]
+	} else if field == "MagicBlock" {
+		group = field
+	}
+	y := block.Provider().(*block.Block)
+	if err := json.Unmarshal(wire, y); err != nil {
+		panic(err)
+	}
+	if err := y.ComputeProperties(); err != nil {
+		viol("honest-delivery", "honest/rejected", fmt.Sprintf("ComputeProperties of an untampered block: %v", err))
+		return
+	}
+	how := []string{"ComputeHash", "Validate", "HashBlock", "receive"}[int(st.Int(6, 0))%4]
+	var herr error
+	switch how {
+	case "ComputeHash":
+		if h := y.ComputeHash(); h != orig.Hash {
+			herr = fmt.Errorf("hash %s, generator's %s", h, orig.Hash)
+		}
+	case "Validate":
+		herr = y.Validate(ctx)
+	case "HashBlock":
+		y.HashBlock()
+		if y.Hash != orig.Hash {
+			herr = fmt.Errorf("hash %s, generator's %s", y.Hash, orig.Hash)
+		}
+	default:
+		if herr = y.Validate(ctx); herr == nil {
+			herr = rc.mc.ValidateTransactions(ctx, y)
+		}
+	}
+	if herr != nil {
+		viol("honest-delivery", "honest/rejected", fmt.Sprintf("untampered decoded block does not hash/validate like the generator's (%s): %v", how, herr))
+		return
+	}
+	ok, _ := w.tamperBlock(y, field, int(st.Int(1, 0))%mutKinds, st.Int(2, 0), int(st.Int(5, 0)), bknown, tknown)
+	if !ok {
+		tr.Outcome("skip/not-applicable")
+		return
+	}
+	tr.Fault("rehash_after_" + group)
+	now, err := json.Marshal(y)
+	if err != nil {
+		panic(err)
+	}
+	objHash := y.ComputeHash()
+	fresh := &block.Block{}
+	if err := json.Unmarshal(now, fresh); err != nil {
+		tr.Event("rehash %s after %s: contents do not decode", field, how)
+		tr.Outcome("rehash/undecodable")
+		return
+	}
+	freshHash := fresh.ComputeHash()
+	// verdicts: the object goes through the receiver's stages again; the reference is the plain receive path
+	var objErr error
+	if objErr = y.ComputeProperties(); objErr == nil {
+		if objErr = y.Validate(ctx); objErr == nil {
+			objErr = rc.mc.ValidateTransactions(ctx, y)
+		}
+	}
+	_, stage, refErr := receiveBlock(now, rc)
+	tr.Event("rehash %s after %s txns=%d hash-moved=%v same-as-fresh=%v object-accepted=%v fresh=%s", field, how, len(orig.Txns), objHash != orig.Hash, objHash == freshHash, objErr == nil, stage)
+	tr.Outcome(fmt.Sprintf("rehash/%s/%s/%v/%v", how, group, objHash != orig.Hash, objErr == nil))
+	if objHash != freshHash {
+		viol("hash-function-of-contents", "rehash/"+group+"/hash-depends-on-history",
+			fmt.Sprintf("a block object hashed (%s), then changed (%s), hashes to %s; a freshly decoded block with the same contents hashes to %s (generator's hash %s, %d txns)", how, field, objHash, freshHash, orig.Hash, len(orig.Txns)))
+	}
+	if (objErr == nil) != (refErr == nil) {
+		viol("hash-function-of-contents", "rehash/"+group+"/verdict-depends-on-history",
+			fmt.Sprintf("a block object hashed (%s), then changed (%s): validating the object again gives %q, a freshly decoded block with the same contents gives %q (%s)", how, field, errCode(objErr), errCode(refErr), stage))
+	}
 }
 
 // tamperBlock applies one tamper to the in-transit copy x. It returns whether
